@@ -135,6 +135,10 @@ def bytes_to_human(value, prec=2):
 
 
 def guess_type(value: str) -> Any:
+    # Values from the configuration file are already typed (TOML)
+    if not isinstance(value, str):
+        return value
+
     if value.lower() in {'none', 'false', 'true'}:
         value = value.title()
 
